@@ -12,6 +12,7 @@ from .values import (
     IntSeqSort,
     SBool,
     SClosure,
+    SDec,
     SDict,
     SExc,
     SExcClass,
@@ -161,6 +162,8 @@ class OpsMixin:
             return v.e
         if isinstance(v, SInt):
             return v.e != self.mkint(0)
+        if isinstance(v, SDec):
+            return True
         if isinstance(v, (SStr, SSeq)):
             return z3.Length(v.e) > 0
         if isinstance(v, SList):
@@ -726,6 +729,14 @@ class OpsMixin:
                 raise Unsupported("float comparison with a symbolic value")
             za, zb = self.to_z3(a, "int"), self.to_z3(b, "int")
             return self.wrap_bool(self.cmp_z3(sym, za, zb))
+        if isinstance(a, SDec) or isinstance(b, SDec):
+            if sym in ("==", "!="):
+                da, db = self.as_dec(a), self.as_dec(b)
+                if da is None or db is None:
+                    raise Unsupported("comparison of a decimal rendering with a general string")
+                e = z3.And(da.v == db.v, self.dec_len(da) == self.dec_len(db))
+                return self.wrap_bool(e if sym == "==" else z3.Not(e))
+            raise Unsupported("ordering of decimal renderings")
         strs = (str, bytes, SStr)
         if isinstance(a, strs) and isinstance(b, strs):
             if sym in ("==", "!="):
@@ -772,6 +783,18 @@ class OpsMixin:
             # is false on this path): an unconstrained Bool proves nothing and assumes nothing
             return SBool(z3.Bool(self.run.fresh("undefined")))
         raise Unsupported(f"comparison {sym} of {pytype_name(a)} and {pytype_name(b)} (line {self.lineno})")
+
+    def as_dec(self, v):
+        if isinstance(v, SDec):
+            return v
+        if isinstance(v, str) and v.isdigit() and v.isascii():
+            return SDec(z3.IntVal(int(v)), len(v))
+        return None
+
+    def dec_len(self, d):
+        nd = z3.Function("ndigits", z3.IntSort(), z3.IntSort())
+        self.run.assume(z3.Implies(d.v >= 10 ** d.w, nd(d.v) > d.w))
+        return z3.If(d.v < 10 ** d.w, z3.IntVal(d.w), nd(d.v))
 
     def identity(self, a, b):
         if isinstance(a, SUnion) and b is None:
@@ -848,6 +871,8 @@ class OpsMixin:
             if obj.name in ("exc", "passlib.exc"):
                 return exc_class(attr)
             raise Unsupported(f"module attribute {obj.name}.{attr}")
+        if isinstance(obj, SStub) and attr in obj.attrs:
+            return obj.attrs[attr]
         if isinstance(obj, SExc):
             if attr == "args":
                 return tuple(obj.args)
